@@ -5,9 +5,10 @@
 
 package txtar
 
-//@ property C03: isMarker
+//@ property C03: isMarker, findFileMarker, fixNL
+//@ property C14: NeedsQuote
 
-// Vocabulary (from the txtar format description and property C03/C14).
+// Vocabulary (from the txtar format description and properties C03/C14).
 // Positions are absolute positions in the byte array underlying d:
 // lo(d) <= P <= hi(d).
 //
@@ -17,9 +18,15 @@ package txtar
 // text, whether the line ends in LF or at the end of input.
 //@ pure func lendA(d []byte, P int) int = (eol(d,P) > P && at(d, eol(d,P)-1) == '\r') ? eol(d,P)-1 : eol(d,P)
 //
-//@ pure func markerAtA(d []byte, P int) bool = P + 3 <= hi(d) && at(d,P) == '-' && at(d,P+1) == '-' && at(d,P+2) == ' ' && lendA(d,P) - P >= 6 && at(d, lendA(d,P)-3) == ' ' && at(d, lendA(d,P)-2) == '-' && at(d, lendA(d,P)-1) == '-' && len(TrimSpace(mkseq(arrof(d), P+3, lendA(d,P)-3))) != 0
+// A file marker line starts at P: "-- " NAME " --" with a non-blank NAME.
+//@ opaque func markerAtA(d []byte, P int) bool = P + 3 <= hi(d) && at(d,P) == '-' && at(d,P+1) == '-' && at(d,P+2) == ' ' && lendA(d,P) - P >= 6 && at(d, lendA(d,P)-3) == ' ' && at(d, lendA(d,P)-2) == '-' && at(d, lendA(d,P)-1) == '-' && len(TrimSpace(mkseq(arrof(d), P+3, lendA(d,P)-3))) != 0
 //
 //@ pure func nameAtA(d []byte, P int) string = TrimSpace(mkseq(arrof(d), P+3, lendA(d,P)-3))
+//
+// No marker line starts at a line start before M.
+//@ pure func noMarkerBefore(d []byte, M int) bool = forall P {markerAtA(d,P)} :: lo(d) <= P && P < M && lineStartA(d,P) ==> !markerAtA(d,P)
+//
+//@ pure func norm(d []byte) bool = len(d) == 0 || at(d, hi(d)-1) == '\n'
 
 //@ func isMarker
 //@   pure
@@ -27,3 +34,28 @@ package txtar
 //@   ensures name != "" ==> name == nameAtA(data, lo(data))
 //@   ensures name != "" && eol(data, lo(data)) < hi(data) ==> sameSlice(after, data[eol(data, lo(data)) + 1 - lo(data):])
 //@   ensures name != "" && eol(data, lo(data)) == hi(data) ==> after == nil
+
+//@ func fixNL
+//@   modifies new bytes
+//@   ensures norm(data) ==> sameSlice(result, data)
+//@   ensures !norm(data) ==> fresh(result) && len(result) == len(data)+1 && at(result, hi(result)-1) == '\n'
+//@   ensures !norm(data) ==> forall Q {at(result,Q)} :: lo(result) <= Q && Q < hi(result)-1 ==> at(result,Q) == at(data, Q - lo(result) + lo(data))
+
+//@ func findFileMarker
+//@   modifies new bytes
+//@   loop 1: invariant 0 <= i && i <= len(data) && lineStartA(data, lo(data)+i)
+//@   loop 1: invariant noMarkerBefore(data, lo(data)+i)
+//@   loop 1: decreases len(data) - i
+//@   ensures name != "" ==> len(before) <= len(data) && sameSlice(before, data[:len(before)])
+//@   ensures name != "" ==> lineStartA(data, hi(before)) && markerAtA(data, hi(before)) && noMarkerBefore(data, hi(before))
+//@   ensures name != "" ==> name == nameAtA(data, hi(before))
+//@   ensures name != "" && eol(data, hi(before)) < hi(data) ==> sameSlice(after, data[eol(data, hi(before)) + 1 - lo(data):])
+//@   ensures name != "" && eol(data, hi(before)) == hi(data) ==> after == nil
+//@   ensures name == "" ==> noMarkerBefore(data, hi(data)) && after == nil
+//@   ensures name == "" && norm(data) ==> sameSlice(before, data)
+//@   ensures name == "" && !norm(data) ==> fresh(before) && len(before) == len(data)+1 && at(before, hi(before)-1) == '\n'
+
+// C14: NeedsQuote is true exactly when the body contains a marker line.
+//@ func NeedsQuote
+//@   modifies new bytes
+//@   ensures result == !noMarkerBefore(data, hi(data))
